@@ -951,3 +951,98 @@ func failLeavesLoop(l *natLoop, ev ssa.Value) bool {
 	}
 	return false
 }
+
+func init() {
+	register(&Rule{ID: "C05.R4", Props: []string{"C05"}, Thorough: true, Min: 20, Needs: NeedMain,
+		Doc: "no unguarded index or slice expression in the decode cone (codec, tup, generated readers/dispatchers/proxies, the framing function): every index/slice operation is dominated by a length guard, bounded by the loop that fills a slice made with that very bound, a strings.Split first element, or a listed justified exception",
+		Run: func(r *R) {
+			fns := r.w.decodeFuncs()
+			if sp := r.w.Pkg("tars/protocol"); sp != nil {
+				fns = append(fns, r.w.Funcs(sp)...)
+			}
+			for _, fn := range fns {
+				if !touchesReader(fn) && fn.Pkg != r.w.Pkg("tars/protocol") {
+					continue
+				}
+				for _, s := range indexSites(fn) {
+					if s.safe {
+						if strings.Contains(s.why, "fixed array") {
+							continue
+						}
+						r.OK(fname(fn), s.expr, s.in.Pos(), "%s", s.why)
+						continue
+					}
+					if ok, why := madeWithLoopBound(s.in); ok {
+						r.OK(fname(fn), s.expr, s.in.Pos(), "%s", why)
+						continue
+					}
+					// a network buffer parameter framed by ParsePackage on every call path (C05.R3's argument)
+					if sl, ok := s.in.(*ssa.Slice); ok {
+						if p, isP := sl.X.(*ssa.Parameter); isP && isByteSlice(p.Type()) {
+							tr := &paramTracer{w: r.w, memo: map[string]string{}}
+							if why := tr.traceParam(fn, paramIndex(fn, p), 0); why == "" {
+								r.OK(fname(fn), s.expr, s.in.Pos(), "every caller passes a slice framed by ParsePackage (PackageFull, length >= 4 by C07.R1)")
+								continue
+							}
+						}
+					}
+					if why, ok := decodeIndexExceptions[fname(fn)+"|"+s.expr]; ok {
+						r.OKLookup(fname(fn), s.expr, s.in.Pos(), "justified exception: %s", why)
+						continue
+					}
+					r.Bad(fname(fn), s.expr, s.in.Pos(), "%s: an input can make this index/slice expression panic", s.why)
+				}
+			}
+		}})
+}
+
+var decodeIndexExceptions = map[string]string{
+	"(*tars/protocol/codec.Reader).Next|b.ref[(len(b.ref)-Len(b.buf)):(len(b.ref)-Len(b.buf))]": "beg = len(ref)-Len() before and end = len(ref)-Len() after a forward Seek: (*bytes.Reader).Len() is clamped to [0, len(ref)] and does not grow on a forward seek, so 0 <= beg <= end <= len(ref)",
+}
+
+// madeWithLoopBound: x[i] where x was assigned make(T, n) and the enclosing loop runs i < e with
+// e and n the same decoded value (the generated `x = make(T, length); for i, e := 0, length; i < e`).
+func madeWithLoopBound(in ssa.Instruction) (bool, string) {
+	ia, ok := in.(*ssa.IndexAddr)
+	if !ok {
+		return false, ""
+	}
+	// bound of the index
+	var bound ssa.Value
+	for _, f := range facts(in.Block()) {
+		if c, ok := normFact(f); ok && c.X == ia.Index && c.Op == token.LSS {
+			bound = c.Y
+		}
+	}
+	if bound == nil {
+		return false, ""
+	}
+	if mk, ok := ia.X.(*ssa.MakeSlice); ok {
+		if sameNum(mk.Len, bound) || sameValue(stripWiden(mk.Len), stripWiden(bound)) {
+			return true, "index < e where the slice was made with that same length e"
+		}
+		return false, ""
+	}
+	// the indexed slice: load of an address that was stored a MakeSlice with the same length
+	ld, ok := ia.X.(*ssa.UnOp)
+	if !ok || ld.Op != token.MUL {
+		return false, ""
+	}
+	fn := in.Parent()
+	found := false
+	eachInstr(fn, func(j ssa.Instruction) {
+		st, ok := j.(*ssa.Store)
+		if !ok || pathOf(st.Addr) != pathOf(ld.X) {
+			return
+		}
+		if mk, ok := st.Val.(*ssa.MakeSlice); ok && instrDominates(j, in) {
+			if sameNum(mk.Len, bound) || sameValue(stripWiden(mk.Len), stripWiden(bound)) {
+				found = true
+			}
+		}
+	})
+	if found {
+		return true, "index < e where the slice was made with that same length e"
+	}
+	return false, ""
+}
